@@ -811,7 +811,14 @@ func ruleFreeParsersLast(w *World, r *Report) {
 						usesTable = true
 					}
 				}
+				// or through a selection helper of the same type (the lookup extracted into a method)
+				if c, ok := ins.(*ssa.Call); ok && w.isBlockParserSelector(c.Common().StaticCallee(), tableField, freeField) {
+					usesTable = true
+				}
 			}
+		}
+		if w.isBlockParserSelector(fn, tableField, freeField) {
+			continue // the selector itself has no walk
 		}
 		if !usesTable {
 			continue
@@ -870,6 +877,9 @@ func (w *World) checkWalkNotBypassed(r *Report, fn *ssa.Function, l *Loop, table
 					}
 				}
 			}
+			if c, ok := ins.(*ssa.Call); ok && w.isBlockParserSelector(c.Common().StaticCallee(), tableField, nil) {
+				loads = append(loads, b)
+			}
 		}
 	}
 	if len(loads) == 0 {
@@ -918,3 +928,59 @@ func (w *World) checkWalkNotBypassed(r *Report, fn *ssa.Function, l *Loop, table
 }
 
 var _ = strings.Join
+
+// isBlockParserSelector: a method of the parser type that returns []BlockParser and whose every return value is the
+// trigger-less list, or an entry of the trigger table returned under a dominating non-nil test of that entry (the
+// "which parsers may open a block here" lookup extracted from the open loop). With freeField == nil only the shape
+// "reads the table and returns []BlockParser" is required.
+func (w *World) isBlockParserSelector(fn *ssa.Function, tableField, freeField *types.Var) bool {
+	if fn == nil || fn.Blocks == nil || !w.InModule(fn) || fn.Signature.Results().Len() != 1 {
+		return false
+	}
+	sl, ok := fn.Signature.Results().At(0).Type().Underlying().(*types.Slice)
+	if !ok || typeShort(sl.Elem()) != "parser.BlockParser" {
+		return false
+	}
+	reads := false
+	for _, b := range fn.Blocks {
+		for _, ins := range b.Instrs {
+			if fa, ok := ins.(*ssa.FieldAddr); ok {
+				if _, g := fieldOfAddr(fa); g == tableField {
+					reads = true
+				}
+			}
+		}
+	}
+	if !reads {
+		return false
+	}
+	if freeField == nil {
+		return true
+	}
+	for _, b := range fn.Blocks {
+		ret, ok := b.Instrs[len(b.Instrs)-1].(*ssa.Return)
+		if !ok {
+			continue
+		}
+		for _, leaf := range phiLeaves(ret.Results[0]) {
+			if fa, ok := loadOfField(leaf); ok {
+				if _, g := fieldOfAddr(fa); g == freeField {
+					continue
+				}
+			}
+			// a table entry: must be known non-nil here
+			nonNil := false
+			for _, cf := range dominatingConds(b) {
+				for _, a := range condAtoms(cf.If.Cond, cf.Truth) {
+					if x, isNil, isT := nilTest(a.V); isT && isNil != a.Truth && x == leaf {
+						nonNil = true
+					}
+				}
+			}
+			if !nonNil {
+				return false
+			}
+		}
+	}
+	return true
+}
